@@ -22,7 +22,7 @@ from fractions import Fraction as Fr
 from harness.drive import f2b
 
 ID = "C05"
-THEOREM_MODULES = ["JF.Props.C05"]
+THEOREM_MODULES = ["JF.Props.C05", "JF.Props.C05Float"]
 COMPONENTS = ["lift"]
 ASSUMPTIONS = [
     "the fraction u = random.random() lies in [0, 1) (CPython's generator); u = 1.0 is not a draw",
